@@ -133,6 +133,15 @@ func checkRoundTrip(c *mon.Ctx, stage string, idx int64, hr *HistRun) {
 				bad("not-a-pes", fmt.Sprintf("pid %#x datum %d is %s", pid, j, dataKind(g[j])))
 				return
 			}
+			if w.call.Op.Edge {
+				// accepted although at the edge of the contract: delivered, payload intact; the header is not judged
+				if !bytes.Equal(g[j].PES.Data, d.PES.Data) {
+					bad("pes-differs:.Data:edge-header", fmt.Sprintf("pid %#x unit %d (call %d): payload differs", pid, j, w.k))
+					return
+				}
+				c.Count("edge_header_units_delivered")
+				continue
+			}
 			h := mon.Clone(d.PES.Header)
 			if h.StreamID == 0 {
 				st := streamType[pid]
@@ -262,6 +271,11 @@ func runC01(c *mon.Ctx) {
 		ops, period := RandomHistory(r, o)
 		if i%6 == 0 {
 			ops = append(ops, readdScenario(r)...)
+		}
+		if i%5 == 2 {
+			// a few WriteData calls carry a PES header at the edge of the write contract: whether the Muxer accepts or refuses them,
+			// every unit it accepted (these and all the others) must come back
+			c.Add("data_calls_with_edge_headers", int64(edgeHeaders(r, ops)))
 		}
 		hr := runHistory(ops, period)
 		checkRoundTrip(c, "histories", i, hr)
